@@ -847,7 +847,17 @@ func c15RunCase(t *testing.T, k c15Knobs, seed int64) c15Obs {
 				if canceled {
 					d["gave_up_by"] = "context cancellation"
 				}
-				obs.Viol = append(obs.Viol, c15Viol{Sig: "in-time-reply-lost:" + c15Impl(op.API), Detail: d})
+				// shape of the loss (from the responder-side diagnosis): the reply path was
+				// already closed by someone else before Response, or the reply was sent
+				// and the caller returned an error without taking it
+				shape := "undiagnosed"
+				switch p := led.pre[led.idx(tk)].Load(); {
+				case p&2 != 0:
+					shape = "reply-path-closed-by-other"
+				case p != 0:
+					shape = "reply-sent-not-taken"
+				}
+				obs.Viol = append(obs.Viol, c15Viol{Sig: "in-time-reply-lost:" + c15Impl(op.API) + ":" + shape, Detail: d})
 			case tr < ret:
 				obs.Borderline++
 			default:
